@@ -397,6 +397,9 @@ def gen_ep_config_program(rng, name, overrides, migrate, reply, replies_feature)
         rn = rng.choice(["reply", "on_reply", "handle_reply"])
         p["parts"][0]["handlers"].append({"kind": "reply", "name": rn, "safe": True, "hid": f"c.reply.{rn}", "part": "c",
                                           "legacy": True, "args": [], "ret_err": "own"})
+    elif reply == "feature-only":
+        # `sv::features(replies)` switched on, but no reply method declared: there is nothing to emit a reply entry point for
+        p["replies"] = True
     p["overrides"] = [{"kind": k, "fn": f"ov_{k}", "msg": ("Reply" if k == "reply" else "svmon::OvMsg")} for k in overrides]
     p["ep_config"] = {"overrides": list(overrides), "migrate": migrate, "reply": reply}
     return p
